@@ -198,27 +198,24 @@ func cmdCheck(args []string) {
 			continue
 		}
 		n := 0
-		// a function selected through a clause tag only: the obligations its tagged clauses rest on (invariants,
-		// callee preconditions, frames, no-panic: everything that carries the function-level props) belong to the
-		// property as well - a postcondition proved from an unchecked invariant proves nothing
-		cfn := eng.cs.Funcs[k]
-		viaClause := cfn != nil && !hasProp(cfn.Props, *prop)
+		// Every obligation of a selected function belongs to the check, whatever property tags its clauses carry: the
+		// tags decide which functions a property is about, not which of their clauses may be broken unnoticed (clause
+		// tags once left `cache.dir.ReadDir:eof`, tagged C16, out of the C10 check that pages through the same handle).
+		// The only exception: an obligation recorded as a known finding of another property is reported there.
+		knownHere := map[string]bool{}
+		for _, kf := range known.Findings {
+			if kf.Property == *prop {
+				knownHere[kf.Obligation] = true
+			}
+		}
 		for _, o := range fr.Obls {
-			if viaClosure[k] {
-				// a finding recorded against this callee is reported by the check of its own property
-				if knownAnywhere[o.Name()] {
-					closureSkipped = append(closureSkipped, o.Name())
-					n++
-					continue
-				}
-				allObls = append(allObls, o)
+			if knownAnywhere[o.Name()] && !knownHere[o.Name()] {
+				closureSkipped = append(closureSkipped, o.Name())
 				n++
 				continue
 			}
-			if hasProp(o.Props, *prop) || (viaClause && strings.Join(o.Props, " ") == strings.Join(cfn.Props, " ")) {
-				allObls = append(allObls, o)
-				n++
-			}
+			allObls = append(allObls, o)
+			n++
 		}
 		if n == 0 {
 			p := writeReplay(calleeShort(k)+"-vacuous", map[string]interface{}{"obligation": calleeShort(k) + ":nonvacuous", "error": "function under contract generated no obligation"})
